@@ -104,7 +104,9 @@ CLAIMED.update({
             'Proved: the priority of every returned item equals the model score of its derivation (leaf tags + attachment of every '
             'non-head child by the stored head flags + root attachment - penalty per unary node), any grammar, 1-best and n-best. '
             'Diffed against the real C++ and against real trees through the glue (scores recomputed from each returned Tree with '
-            'its head flags); lazy_score_accounting carries it to the lazy model of the call.',
+            'its head flags); lazy_score_accounting carries it to the lazy model of the call, and tree_score states it on the object the '
+            'caller receives: the score recomputed from the returned Tree alone (Lean function treeScore, also evaluated on every real '
+            'tree of the lazy suite) equals the attached score.',
             SEARCH_NOTE, 'DESIGN.md §4 C09'),
     'C10': (T_PROOF,
             'Proved for n-best mode with step budget left: no unreturned licensed parse scores more than a returned one, fewer '
@@ -138,7 +140,8 @@ CLAIMED.update({
             'pass the probability test, stop at the first failure; with the filter off exactly the top pruning_size; every leaf '
             'of a returned parse carries an admitted tag. The numeric test exp(s) > exp(best)*beta is a parameter of the model '
             '(computed by the harness with the same float32 libm expf) - correspondence-only. lazy_leaf_tags_admitted carries it to '
-            'the lazy model of the call. The options are also given on the real command line (argparse.py -> __main__.py -> '
+            'the lazy model of the call and tree_beam states it on the returned Trees (the i-th leaf carries the category of a column admitted '
+            'for the i-th word). The options are also given on the real command line (argparse.py -> __main__.py -> '
             'parsing.run -> print_ in-process, only the neural tagger replaced): the printed trees must respect the beam as given.',
             SEARCH_NOTE, 'DESIGN.md §4 C16, §7.2'),
 })
